@@ -4,3 +4,4 @@ import UVerifProofs.Props.C05
 import UVerifProofs.Props.C03
 import UVerifProofs.Props.C04
 import UVerifProofs.Props.C06
+import UVerifProofs.Props.C15
